@@ -49,6 +49,13 @@ EVAL_PROGRAMS = {
     "two-parameters-of-the-same-name": (
         {"main.oal": "let f x x = { 'v x };\nres /a on get -> <f \"not a schema\" str>;\n"},
         [("paths./a.get.responses.default.content.application/json.schema.properties.v.type", "string")], None),   # or rejected as a duplicate binder
+    # a qualified name its module does not provide has no binder - whatever the bare name denotes nearby
+    "qualified-name-the-module-lacks-next-to-a-parameter-of-that-name": (
+        {"main.oal": 'use "shapes.oal" as s;\nlet secret = { \'token str };\nlet wrap v = { \'inner s.v };\nres /w on get -> <wrap secret>;\n', "shapes.oal": "let point = { 'x int };\n"}, [], 1),
+    "qualified-name-the-module-lacks-next-to-a-declaration-of-that-name": (
+        {"main.oal": 'use "shapes.oal" as s;\nlet point2 = { \'p num };\nres /w on get -> <s.point2>;\n', "shapes.oal": "let point = { 'x int };\n"}, [], 1),
+    "qualifier-that-is-no-import": (
+        {"main.oal": "let v = { 'p num };\nres /w on get -> <nowhere.v>;\n"}, [], 1),
     "declaration-order-is-irrelevant": (
         {"main.oal": "res / on get -> <a>;\nlet a = { 'b b };\nlet b = int;\n"},
         [("paths./.get.responses.default.content.application/json.schema.properties.b.type", "integer")], 0),
